@@ -19,7 +19,7 @@ type Expr struct {
 	Int  int64
 	Args []*Expr
 	Vars []BoundVar
-	Trig []*Expr
+	Trigs [][]*Expr // alternative multi-patterns
 	Src  string
 }
 
@@ -216,14 +216,16 @@ func (p *specParser) parseExpr() *Expr {
 			}
 		}
 		p.expect("::")
-		if p.accept("{") {
+		for p.accept("{") {
+			var grp []*Expr
 			for {
-				e.Trig = append(e.Trig, p.parseExpr())
+				grp = append(grp, p.parseExpr())
 				if !p.accept(",") {
 					break
 				}
 			}
 			p.expect("}")
+			e.Trigs = append(e.Trigs, grp)
 		}
 		e.Args = []*Expr{p.parseExpr()}
 		return e
